@@ -179,9 +179,9 @@ def rec_obs(tier, seed):
                       functions=[tab + ' (raid/tables.c)'], note='row and column indices symbolic: all %d x 251 entries, all 2x2 minors' % rows))
     for r in itertools.combinations(range(6), 3):
         obs.append(Ob('mds.cauchy.order3.rows%d%d%d' % r, R, 'h_mds3', ['raid/tables.c'], defs={'MDS_R0': r[0], 'MDS_R1': r[1], 'MDS_R2': r[2]},
-                      solver=KISSAT, timeout=3000, mem=6, cost=40, tier='quick' if r in ((0, 1, 2), (3, 4, 5)) else 'thorough',
+                      solver=KISSAT, timeout=3000, mem=6, cost=40, tier='thorough',
                       functions=['raid_gfcauchy (raid/tables.c)'], note='rows %s concrete, the three columns symbolic (all C(251,3) = 2 604 125 column triples)' % (r,)))
-    obs.append(Ob('mds.power.order3', R, 'h_mds3', ['raid/tables.c'], defs={'MDS_TABLE': 'raid_gfvandermonde', 'MDS_ROWS': 3}, solver=KISSAT, timeout=3000, mem=6, cost=40,
+    obs.append(Ob('mds.power.order3', R, 'h_mds3', ['raid/tables.c'], defs={'MDS_TABLE': 'raid_gfvandermonde', 'MDS_ROWS': 3}, solver=KISSAT, timeout=3000, mem=6, cost=40, tier='thorough',
                   functions=['raid_gfvandermonde (raid/tables.c)'], note='the only row triple (0,1,2), columns symbolic'))
     obs.append(Ob('helper.raid_sort', R, 'h_sort', ['raid/helper.c'], unwind=8, timeout=600, mem=4, cost=3, functions=['raid_sort (raid/helper.c)']))
     obs.append(Ob('helper.raid_insert', R, 'h_insert', ['raid/helper.c'], unwind=9, timeout=600, mem=4, cost=3, functions=['raid_insert (raid/helper.c)']))
@@ -275,7 +275,7 @@ def check_obs(tier):
 def elem_obs(tier):
     return [Ob('elem.file_block_size.bs2^%d' % sh, 'harness/h_elem.c', 'h_file_block_size', defs={'BLOCK_SHIFT': sh}, unwind=4, small_path=True, timeout=600, mem=6, cost=4,
                tier='quick' if sh in (10, 18, 24) else 'thorough', functions=['file_block_size (cmdline/elem.c)', 'file_block_is_last (cmdline/elem.c)'],
-               note='block size 2^%d concrete (a symbolic modulus is out of reach), file size up to 2^50 and position symbolic' % sh)
+               note='block size 2^%d concrete (a symbolic modulus is out of reach), every file size of at most 2^32-2 blocks and every position' % sh)
             for sh in range(10, 25)]
 
 
@@ -373,8 +373,14 @@ def c05(tier, seed):
     return check_obs(tier)
 
 
+def import_obs():
+    return [Ob('import.fetch', 'harness/h_import.c', 'h_import_fetch', unwind=18, small_path=True, timeout=900, mem=6, cost=5, replay=False,
+               functions=['state_import_fetch (cmdline/import.c)'],
+               note='every candidate / size / file content / digest / recorded hash / hash size 2..16 / migration flag / short read; tommy_hashdyn_search, open, pread, close, memhash by stub')]
+
+
 def c19(tier, seed):
-    return sync_hash_obs()
+    return sync_hash_obs() + import_obs()
 
 
 def c09(tier, seed):
@@ -431,7 +437,7 @@ PROPS['C02'].update(
     assumptions=[SIMD_NOTE, 'generator obligations enumerate geometry: nd <= 5 (int8) / nd <= 12 (int32/int64), size = 1 or 2 chunks of the implementation (64 bytes through raid_gen); larger nd and sizes are NOT covered by a whole-function obligation', CBMC_BUG],
     not_covered=['raid/x86.c, raid/x86z.c (inline assembly)', 'generators at nd > 12 / nd > 5 (int8) as whole functions', 'block sizes beyond two chunks (the outer loop carries no state; argued, not discharged)'])
 PROPS['C03'].update(
-    explanation='(1) MDS on the real tables: every 1x1 and 2x2 minor of the 6x251 Cauchy and 3x251 power matrices is non-singular for ALL row/column pairs (symbolic indices), every 3x3 minor for ALL column triples per row triple (2 row triples in quick, all 20 in thorough) - orders 4..6 are NOT discharged (3.8e11 minors; the structural Cauchy argument needs mathematics outside the tool). '
+    explanation='(1) MDS on the real tables: every 1x1 and 2x2 minor of the 6x251 Cauchy and 3x251 power matrices is non-singular for ALL row/column pairs (symbolic indices), every 3x3 minor for ALL column triples of each of the 20 row triples and of the power matrix (thorough tier only: 6-15 min per row triple) - orders 4..6 are NOT discharged (3.8e11 minors; the structural Cauchy argument needs mathematics outside the tool). '
                 '(2) raid_rec dispatch: for EVERY nd <= 251, np <= 6 and sorted failure list (all symbolic), the decoder slot, id[], ip[] (first surviving parities) and the regenerated parity range are exactly as specified, decoders replaced by recording stubs. '
                 '(3) raid_delta_gen and recovery through parity 0 (raid_rec1_int8 -> raid_rec1of1) restore / compute exactly the specified bytes and leave every other block, unused (aliased) parities, the zero block and the pointer vector untouched, for small concrete geometries with all contents symbolic. '
                 '(4) raid_invert: M*V == I for every 1x1 / 2x2 matrix without zero pivot. (5) raid_sort / raid_insert: sorted permutation for all inputs, n <= 6; combination_first/next: exactly C(n,r) strictly increasing tuples in lexicographic order for the listed (r, n). '
@@ -513,11 +519,19 @@ for k in ('C15', 'C18', 'C20'):
     NOT_YET.pop(k, None)
 
 
+def hash_obs(tier):
+    lens = (0, 1, 3, 4, 5, 8, 12, 13, 15, 16, 17, 20, 31, 32, 33)
+    return [Ob('hash.murmur3.len%d' % n, 'harness/h_hash.c', 'h_murmur3', ['cmdline/util.c'], defs={'HASH_LEN': n}, unwind=40, solver=KISSAT, timeout=7200, mem=6, cost=100, tier='thorough',
+               kind='bounded', bound='length %d bytes, every content and every 16-byte seed' % n, native_libs=[],
+               functions=['MurmurHash3_x86_128 (cmdline/murmur3.c)', 'memhash (cmdline/util.c)'])
+            for n in lens]
+
+
 # ---------------------------------------------------------------- composed properties
 def c16(tier, seed):
     """format stability = every constant / encoding is pinned to a definition that is not in the repo"""
     c17 = [o for o in PROPS['C17']['obligations'](tier, seed) if o.name in ('parity.split_find.contract', 'parity.split_find.lemma')]
-    return table_obs(tier) + crc_obs(tier) + stream_obs(['h_sgetb32', 'h_sgetb64', 'h_sgetble32', 'h_sgetbs', 'h_rt32', 'h_rt64', 'h_rtle32', 'h_rtbs']) + staterec_obs(tier) + elem_obs(tier) + c17
+    return table_obs(tier) + crc_obs(tier) + stream_obs(['h_sgetb32', 'h_sgetb64', 'h_sgetble32', 'h_sgetbs', 'h_rt32', 'h_rt64', 'h_rtle32', 'h_rtbs']) + staterec_obs(tier) + elem_obs(tier) + c17 + hash_obs(tier)
 
 
 def c04(tier, seed):
@@ -527,7 +541,8 @@ def c04(tier, seed):
 
 def c01(tier, seed):
     c03 = [o for o in PROPS['C03']['obligations'](tier, seed) if o.name.startswith(('rec.', 'mds.'))]
-    return c03 + check_obs(tier) + elem_obs(tier)
+    # check.repair_step takes ~10 minutes: in the quick tier it runs under C05 only
+    return c03 + [o for o in check_obs(tier) if tier == 'thorough' or o.name != 'check.repair_step'] + elem_obs(tier)
 
 
 PROPS['C16'] = dict(level='other', obligations=c16)
@@ -554,7 +569,7 @@ PROPS['C19'].update(
 PROPS['C16'].update(
     explanation='Format stability is decided as "every constant and encoding equals a definition that is NOT in the repository": parity coefficients and every lookup table (table-free GF(2^8) spec, documented Cauchy / power matrix, all indices); CRC-32C tables == reflected 0x82F63B78 and the checksum function; the variable-length integer / little-endian / string codecs (all values); the nanosecond field encoding; the block layout rule of a file (block sizes 2^10..2^24); the split-parity address map. Any self-consistent change of one of them (which the suite cannot see, since it creates its arrays with the binary under test) fails a named obligation.',
     trusted_base=['spec/gf_spec.h, the bitwise CRC and varint specifications in the drivers'],
-    assumptions=['the block HASH functions (MurmurHash3_x86_128, SpookyHash V2, MetroHash) are NOT pinned: no independent specification was written for them; a change of hash tail handling / seed mixing would NOT be detected', 'record letters and header bytes of the content file are not pinned'],
+    assumptions=['MurmurHash3_x86_128 is pinned to an independently organised transcription of the published algorithm for all contents and seeds at 15 lengths (0..33) in the THOROUGH tier only (about 20 minutes per length: an equivalence of two multiplier-heavy programs); in the quick tier, and for SpookyHash V2 / MetroHash in both tiers, the block hash functions are NOT pinned', 'record letters and header bytes of the content file are not pinned'],
     not_covered=['cmdline/murmur3.c, spooky2.c, metro.c', 'content header / record tags', 'reference arrays of earlier versions (those are tests, not this technique)'])
 PROPS['C04'].update(
     explanation='Detection logic only: blockcmp (check/fix) accepts iff digest and padding match; the hash region of sync and the book-keeping region of scrub classify a mismatch on a synced block as a silent error and mark exactly that stripe bad (keeping time and other marks), classify differences on unsynced blocks as plain errors that leave the books alone, and refresh / clear marks only for stripes verified correct; scrub selects bad stripes in every plan. The relation is always "whenever the digest differs" (memhash is an arbitrary function here; collision freedom is not assumed).',
